@@ -9,11 +9,14 @@ OBLIGATIONS = [
     dict(_m.BASE, name="section_order", src="../C01/symtab.c", defs=["K_SECTION", "STRINGSIZE=16"],
          functions=["asmpars.c:LookupSymbol", "FindNode", "FindNode_FNode", "EnterSymbol", "EnterIntSymbolWithFlags"],
          bounds="one name defined in any subset of {global, outer section, inner section} with arbitrary values, referenced from the inner section unqualified, as name[] and as name[outer]"),
+    dict(_m.BASE, name="forward_lookup", src="../C01/symtab.c", defs=["K_FORWARD", "STRINGSIZE=16"],
+         functions=["asmpars.c:LookupSymbol", "FindNode", "FindNode_FSpec", "FindNode_FNode", "EnterSymbol"],
+         bounds="first pass, one section inside the global scope, a global symbol L; FORWARD L announced or not; reference spelled L or l; case-sensitive mode on/off"),
     dict(name="ppsyms", src="ppsyms.c", include=["asmallg.c"], units=["asmdef.c", "strcomp.c", "dynstr.c"], stubs=["diag.c", "fmt_off.c"], defs=["STRINGSIZE=16"],
          unwind=12, functions=["asmallg.c:CodePPSyms", "asmallg.c:CodePPSyms_SearchSym", "strcomp.c:StrCompSplitRef"], timeout=900,
          bounds="PUBLIC/GLOBAL/FORWARD list of two entries, each with or without a :section qualifier",
          assumes=["IdentifySection cut to a map from qualifier text to a handle", "ExpandStrSymbol = copy; concrete one-letter names"]),
 ]
 META = dict(outside=["temporary symbols (ChkTmp1/2/3 build names with sprintf)", "IdentifySection parsing of PARENTn/names", "composed .name symbols",
-                     "section resolution order, PUBLIC/GLOBAL/FORWARD, local handles, PUSHV/POPV, case folding, trees.c (pending)"],
+                     "local handles, PUSHV/POPV, case folding beyond one letter, trees.c"],
             assumptions=["malloc never fails"])
